@@ -13,6 +13,7 @@ import math
 import vlib
 
 SQ3 = math.sqrt(3.0)
+FAMILIES = ("motion", "exact", "bilinear", "field", "thole", "induced")
 WORKERS = 4
 REL = 1e-12
 
@@ -127,7 +128,8 @@ def obs_mag(sites, cfg, o):
     srcs, tgt, _ = cfg
     T = sites[tgt - 1]
     tot = 0.0
-    for si in (srcs if o not in (0,) and not (10 <= o <= 18) else srcs[:1]):
+    first_only = o == 0 or 10 <= o <= 18 or 24 <= o <= 44
+    for si in (srcs[:1] if first_only else srcs):
         S = sites[si - 1]
         R = math.sqrt(sum((S["p"][k] - T["p"][k]) ** 2 for k in range(3)))
         ksum = 200.0 * sum(R ** -n for n in range(1, 6))
@@ -289,21 +291,22 @@ def replay(ctx, exe, recs):
     results, crashes = vlib.run_items(exe, items)
     ncmp = 0
     for i, rec in enumerate(recs):
-        ctx.count()
         ctx.traces += 1
-        ctx.nontriv((rec["fam"], json.dumps(rec["sites"][:2]), rec["u"], len(rec["cfg"])))
+        ctx.nontriv((rec["fam"], json.dumps(rec["sites"][:6]), rec["u"], len(rec["cfg"]), json.dumps(rec["cfg"][0])))
         if i in crashes:
             ctx.violation("driver:crash:%s" % rec["fam"], "driver died: %s" % crashes[i], rec)
             continue
-        ncmp += check(ctx, rec, results[i], plans[i][0], plans[i][1])
+        k = check(ctx, rec, results[i], plans[i][0], plans[i][1])
+        ctx.count(k)
+        ncmp += k
         ctx.extra["configurations_evaluated"] = ctx.extra.get("configurations_evaluated", 0) + len(rec["cfg"])
     ctx.extra["relations_compared"] = ctx.extra.get("relations_compared", 0) + ncmp
 
 
-def _tlc(ctx, module, what, emit=True, timeout=1500):
-    res = vlib.tlc("multipole", module, cfg=module + ".cfg", workers=WORKERS, timeout=timeout, heap="4g")
+def _tlc(ctx, module, what, emit=True, timeout=1500, env=None):
+    res = vlib.tlc("multipole", module, cfg=module + ".cfg", workers=WORKERS, timeout=timeout, heap="4g", env=env)
     vlib.tlc_must_hold(res, what)
-    ctx.add_tlc(module, res)
+    ctx.add_tlc(module + ("" if not env else "[" + ",".join("%s=%s" % kv for kv in sorted(env.items())) + "]"), res)
     if emit and 2 * len(res.records) != res.distinct:
         raise vlib.InfraError("%s: vector export incomplete: %d records for %d states" % (module, len(res.records), res.distinct))
     return res.records
@@ -333,18 +336,23 @@ def run(ctx):
         return
 
     _tlc(ctx, "MCGroup" + tier, "group of the cube, action on vectors and on the spherical quadrupole components", emit=False)
-    recs = _tlc(ctx, "MC" + tier, "MultipoleVec: images well-formed, distances/invariants preserved, every exact energy "
-                                  "order invariant, symmetric and bilinear")
+    what = ("MultipoleVec: images well-formed, distances/invariants preserved, every exact energy order invariant, "
+            "symmetric and bilinear")
     fams = {}
-    for r in recs:
-        fams[r["fam"]] = fams.get(r["fam"], 0) + 1
+    # quick: one TLC run with all families; thorough: one run per family (bounded memory)
+    for env in ([None] if ctx.quick else [{"C15_FAM": f} for f in FAMILIES]):
+        recs = _tlc(ctx, "MC" + tier, what, env=env)
+        for fam in FAMILIES:
+            ex = [r for r in recs if r["fam"] == fam]
+            if not ex:
+                continue
+            fams[fam] = fams.get(fam, 0) + len(ex)
+            ex = ex[len(ex) // 2]
+            ctx.sample({"family": fam, "u": ex["u"], "sites": ex["sites"][:4], "cfg": ex["cfg"][:4],
+                        "rel": ex["rel"][:3], "exact": ex["exact"][:1], "bnd": ex["bnd"][:1]})
+        step = 2000     # chunks keep the driver input bounded
+        for k in range(0, len(recs), step):
+            replay(ctx, exe, recs[k:k + step])
+        del recs
     ctx.extra["vectors_per_family"] = fams
-    for fam in sorted(fams):
-        ex = next(r for r in recs if r["fam"] == fam)
-        ctx.sample({"family": fam, "u": ex["u"], "sites": ex["sites"][:4], "cfg": ex["cfg"][:4],
-                    "rel": ex["rel"][:3], "exact": ex["exact"][:1], "bnd": ex["bnd"][:1]})
-    # chunks keep the driver input bounded
-    step = 2000
-    for k in range(0, len(recs), step):
-        replay(ctx, exe, recs[k:k + step])
     ctx.exhaustive = False
